@@ -33,6 +33,12 @@ class ScratchSlot:
             ScratchSlot.nextSlotId += 1
             self.isReservedSlot = False
         else:
+            if not isinstance(requestedSlotId, int) or isinstance(requestedSlotId, bool):
+                raise TealInputError(
+                    "Invalid slot ID {!r}, should be a Python int".format(
+                        requestedSlotId
+                    )
+                )
             if requestedSlotId < 0 or requestedSlotId >= NUM_SLOTS:
                 raise TealInputError(
                     "Invalid slot ID {}, should be in [0, {})".format(
